@@ -8,7 +8,7 @@ exception class.  Oracles run on every accepted program's REAL protos:
   * `onnx.checker.check_model(to_model_proto(), full_check=True)` (strict, with shape inference)
   * an independent pure-Python SSA / scope walker (`c01_enc.scope_walk`)
   * opset-import audit: every domain used at any depth is imported, with one version
-  * the *verified* decision procedure `OV.C01.wfGraph` (Lean, `wfGraph_iff`) on the real proto parsed back
+  * the executable Lean decision procedure `OV.C01.wfGraph` (read as Prop clauses by `wfGraph_sound`) on the real proto parsed back
     into the model's `Graph`.
 """
 from __future__ import annotations
@@ -198,8 +198,8 @@ def main(run: core.Run) -> None:
         n_prog = int(n_prog * 1.5)
     corpus = [m for m in c01.load_corpus()]
     tasks, progs = c01.generate_tasks(run, n_prog, 1, 25, semantic=False, structural=True)
-    # programs with constant subscripts in every scope (structure only: the Lean converter model does not cover
-    # subscripts, so there is no tie for them; checker, scope walker and the verified wfGraph see their protos)
+    # programs with constant subscripts in every scope (structure only; constant subscripts are in the Lean converter
+    # model, so they are tied as well; checker, scope walker and the Lean checker wfGraph see their protos)
     stasks, sprogs = c01.generate_tasks(run, run.size(120, 1200), 1, 25, subscripts=True, prefix="g",
                                         semantic=False, structural=True)
     tasks += stasks
